@@ -3,6 +3,8 @@ package sbom
 import (
 	"fmt"
 	"maps"
+	"sort"
+	"strings"
 )
 
 // flatString returns a deterministic serialized representation of the external reference as a string.
@@ -20,6 +22,19 @@ func (e *ExternalReference) flatString() string {
 
 	if e.Authority != "" {
 		ret += fmt.Sprintf("(a)%s", e.Authority)
+	}
+
+	if len(e.Hashes) > 0 {
+		algos := []int{}
+		for algo := range e.Hashes {
+			algos = append(algos, int(algo))
+		}
+		sort.Ints(algos)
+		hashes := []string{}
+		for _, algo := range algos {
+			hashes = append(hashes, fmt.Sprintf("%d:%s", algo, e.Hashes[int32(algo)]))
+		}
+		ret += fmt.Sprintf("(h)%s", strings.Join(hashes, ","))
 	}
 
 	return ret
